@@ -82,6 +82,13 @@ bool mpi_reduce_min_done(void)
 
 void mpi_node_barrier(void) {}
 
+void mpi_node_barrier_start(void) {}
+
+bool mpi_node_barrier_done(void)
+{
+	return true;
+}
+
 void mpi_blocking_data_send(const void *data, int data_size, nid_t dest)
 {
 	(void)data;
